@@ -45,7 +45,8 @@ def cheby1_seq(ns, x):
 
     """
     ns = list(ns)
-    cs = 1/jacobi_seq(ns, -.5, -.5, np.ones(1, dtype=x.dtype))
+    # one normalisation constant per order, shape (N, 1, ..., 1): broadcasts over every coordinate axis
+    cs = 1/jacobi_seq(ns, -.5, -.5, np.ones((1,)*x.ndim, dtype=x.dtype))
     seq = jacobi_seq(ns, -.5, -.5, x)
     return seq*cs
 
@@ -86,7 +87,8 @@ def cheby1_der_seq(ns, x):
 
     """
     ns = list(ns)
-    cs = 1/jacobi_seq(ns, -.5, -.5, np.ones(1, dtype=x.dtype))
+    # one normalisation constant per order, shape (N, 1, ..., 1): broadcasts over every coordinate axis
+    cs = 1/jacobi_seq(ns, -.5, -.5, np.ones((1,)*x.ndim, dtype=x.dtype))
     seq = jacobi_der_seq(ns, -.5, -.5, x)
     return seq*cs
 
@@ -126,16 +128,14 @@ def cheby2_seq(ns, x):
         return has shape (5, 100, 100)
 
     """
-    # gross squeeze -> new axis dance;
-    # seq is (N,M)
-    # cs is (N,)
-    # return of jacobi_seq is (N,1)
-    # drop the 1 to avoid broadcast to (N,N)
-    # then put back 1 for compatibility on the multiply
+    # seq is (N, *x.shape)
+    # return of jacobi_seq on ones(1) is (N,1); squeeze it to (N,) so that
+    # the division by (ns+1) does not broadcast to (N,N)
     ns = np.asarray(ns)
     cs = (ns+1)/np.squeeze(jacobi_seq(ns, .5, .5, np.ones(1, dtype=x.dtype)))
     seq = jacobi_seq(ns, .5, .5, x)
-    return seq*cs[:, np.newaxis]
+    # cs is (N,); give it one trailing axis per coordinate axis so that it scales mode k by cs[k]
+    return seq*cs.reshape((len(ns),) + (1,)*x.ndim)
 
 
 def cheby2_der(n, x):
@@ -176,7 +176,8 @@ def cheby2_der_seq(ns, x):
     ns = np.asarray(ns)
     cs = (ns + 1)/np.squeeze(jacobi_seq(ns, .5, .5, np.ones(1, dtype=x.dtype)))
     seq = jacobi_der_seq(ns, .5, .5, x)
-    return seq*cs[:, np.newaxis]
+    # cs is (N,); give it one trailing axis per coordinate axis so that it scales mode k by cs[k]
+    return seq*cs.reshape((len(ns),) + (1,)*x.ndim)
 
 
 def cheby3(n, x):
@@ -215,7 +216,8 @@ def cheby3_seq(ns, x):
 
     """
     ns = list(ns)
-    cs = 1/jacobi_seq(ns, -.5, .5, np.ones(1, dtype=x.dtype))
+    # one normalisation constant per order, shape (N, 1, ..., 1): broadcasts over every coordinate axis
+    cs = 1/jacobi_seq(ns, -.5, .5, np.ones((1,)*x.ndim, dtype=x.dtype))
     seq = jacobi_seq(ns, -.5, .5, x)
     return seq*cs
 
@@ -256,7 +258,8 @@ def cheby3_der_seq(ns, x):
 
     """
     ns = list(ns)
-    cs = 1/jacobi_seq(ns, -.5, .5, np.ones(1, dtype=x.dtype))
+    # one normalisation constant per order, shape (N, 1, ..., 1): broadcasts over every coordinate axis
+    cs = 1/jacobi_seq(ns, -.5, .5, np.ones((1,)*x.ndim, dtype=x.dtype))
     seq = jacobi_der_seq(ns, -.5, .5, x)
     return seq*cs
 
@@ -299,7 +302,8 @@ def cheby4_seq(ns, x):
     ns = np.asarray(ns)
     cs = (2*ns+1)/np.squeeze(jacobi_seq(ns, .5, -.5, np.ones(1, dtype=x.dtype)))
     seq = jacobi_seq(ns, .5, -.5, x)
-    return seq*cs[:, np.newaxis]
+    # cs is (N,); give it one trailing axis per coordinate axis so that it scales mode k by cs[k]
+    return seq*cs.reshape((len(ns),) + (1,)*x.ndim)
 
 
 def cheby4_der(n, x):
@@ -340,4 +344,5 @@ def cheby4_der_seq(ns, x):
     ns = np.asarray(ns)
     cs = (2*ns+1)/np.squeeze(jacobi_seq(ns, .5, -.5, np.ones(1, dtype=x.dtype)))
     seq = jacobi_der_seq(ns, .5, -.5, x)
-    return seq*cs[:, np.newaxis]
+    # cs is (N,); give it one trailing axis per coordinate axis so that it scales mode k by cs[k]
+    return seq*cs.reshape((len(ns),) + (1,)*x.ndim)
